@@ -3,13 +3,14 @@
 # existing lib tests of the crate pass with the patch; in the scratch worktree /tmp/confirm-wt.
 set -u
 id="$1"; m="$2"; crate="$3"; cdir="$4"; shift 4
+base="${MUT_BASE:-/tmp/mut}"
 cd /tmp/confirm-wt || exit 2
 git checkout -q -f --detach "$(git -C /repo rev-parse HEAD)"; git clean -fdq
-mkdir -p "$cdir/tests"; cp /tmp/mut-$id-out/$m/demo/*.rs "$cdir/tests/" 2>/dev/null; for d in /tmp/mut-$id-out/$m/demo/*/; do [ -d "$d" ] && cp -r "$d" "$cdir/tests/"; done
-tests=$(cd /tmp/mut-$id-out/$m/demo && ls *.rs | sed 's/\.rs$//')
+mkdir -p "$cdir/tests"; cp $base-$id-out/$m/demo/*.rs "$cdir/tests/" 2>/dev/null; for d in $base-$id-out/$m/demo/*/; do [ -d "$d" ] && cp -r "$d" "$cdir/tests/"; done
+tests=$(cd $base-$id-out/$m/demo && ls *.rs | sed 's/\.rs$//')
 run() { for t in $tests; do CARGO_NET_OFFLINE=true cargo test --offline --target-dir /repo/target -p "$crate" "$@" --test "$t" 2>&1 | grep -E "^test result|^error(\[|:)" | head -3; done; }
 echo "-- demo WITHOUT patch"; run "$@"
-git apply /tmp/mut-$id-out/$m/patch.diff || exit 2
+git apply $base-$id-out/$m/patch.diff || exit 2
 echo "-- demo WITH patch"; run "$@"
 echo "-- existing tests of $crate WITH patch"
 CARGO_NET_OFFLINE=true cargo test --offline --target-dir /repo/target -p "$crate" "$@" --lib 2>&1 | grep -E "^test result|^error(\[|:)|^test .* FAILED" | head -6
